@@ -311,7 +311,9 @@ def pyeval_family(rnd):
                 lc = ('comp', '[', e, [('r', it, ifs)])
                 ge = ('comp', '(', e, [('r', it, ifs)])
                 out += [lc, ('call', 'len', [lc]), ('call', 'any', [ge]), ('call', 'all', [ge]), ('call', 'next', [ge, '0']),
-                        ('sub', lc, '0')]
+                        ('sub', lc, '0'), ('call', 'next', [ge, 'None']), ('call', 'next', [ge, 'nothing']),
+                        ('cmp', ('call', 'next', [ge, 'None']), [('==', 'None')]),
+                        ('if', ('call', 'any', [ge]), 'None', ('call', 'len', [lc]))]
                 if e in ('r.amount', 'txn.amount') or isinstance(e, tuple):
                     out += [('call', 'sum', [ge]), ('call', 'max', [ge]), ('call', 'min', [lc]), ('call', 'sum', [lc, '0.5'])]
     out += [('comp', '[', ('bin', '+', 'r.amount', 'p.amount'), [('r', 'orders', []), ('p', 'paypal', [])]),
@@ -524,7 +526,7 @@ def main(tier):
     run.cov.update({
         'evaluations': len(corr_jobs) + len(law_jobs) + 2 * len(py_jobs),
         'distinct_nontrivial': nontrivial,
-        'rule': 'correspondence: all expressions of <= 3 nodes over a 14-leaf alphabet (quick: all of <= 2 nodes + 3000 sampled of 3, each on 2 boundary transactions; '
+        'rule': 'correspondence: all expressions of <= 3 nodes over a 15-leaf alphabet (incl. None) (quick: all of <= 2 nodes + 3000 sampled of 3, each on 2 boundary transactions; '
                 'thorough: all x 6 boundary transactions), comprehension/scoping templates, random typed trees of depth <= 6, on boundary '
                 'transactions (zero/negative/large amount, month/year ends, leap day, empty description, missing date, custom fields, '
                 'source) x 0-2 supplemental tables of 0-3 rows and random environments; non-trivial = distinct expression texts evaluated '
